@@ -35,6 +35,7 @@ import (
 	"sort"
 	"strconv"
 	"strings"
+	"sync/atomic"
 	"syscall"
 	"time"
 
@@ -822,7 +823,7 @@ func (r *c12run) watchWorker(op int) int {
 // failing input.
 func c12wellFormed(c *Case) bool {
 	arity := map[string]int{"put": 3, "del": 2, "get": 2, "flush": 1, "full": 1, "trigger": 1, "range": 3,
-		"reopen": 1, "retire": 1, "auto": 1, "files": 1, "batch": 2, "commit": 2, "failtrigger": 1}
+		"reopen": 1, "retire": 1, "auto": 1, "files": 1, "batch": 2, "commit": 2, "failtrigger": 1, "autofail": 1}
 	for i := 0; i < len(c.Lines); i++ {
 		l := c.Lines[i]
 		if n, ok := arity[l[0]]; !ok || len(l) != n {
@@ -1010,6 +1011,49 @@ loop:
 				}
 			}
 			r.dump(true)
+		case "autofail":
+			// the same fault inside the BACKGROUND worker (1 s interval): its first cycle fails at
+			// the second output table, the worker's clean-up of obsolete files runs after it, further
+			// cycles cannot even open the tables; after 2.6 s files can be opened again. No table that
+			// existed before may be gone (nothing could be compacted successfully meanwhile).
+			if !r.reopen(false, 1) {
+				aborted = true
+				break loop
+			}
+			pre := r.dump(false)
+			var old syscall.Rlimit
+			var lowered atomic.Bool
+			verifhook.OnHit(func(site string, n int) {
+				if site == "compact.output_done" && lowered.CompareAndSwap(false, true) {
+					if syscall.Getrlimit(syscall.RLIMIT_NOFILE, &old) != nil ||
+						syscall.Setrlimit(syscall.RLIMIT_NOFILE, &syscall.Rlimit{Cur: 0, Max: old.Max}) != nil {
+						lowered.Store(false)
+					}
+				}
+			})
+			time.Sleep(2600 * time.Millisecond)
+			verifhook.OnHit(nil)
+			if lowered.Load() {
+				syscall.Setrlimit(syscall.RLIMIT_NOFILE, &old)
+			}
+			r.nFault++
+			out(fmt.Sprintf("NOTE autofail fault_injected=%v", lowered.Load()))
+			if lowered.Load() {
+				r.nFaultErr++
+				post := c12fileNames(r.dump(false))
+				for _, f := range pre {
+					if post[f.name] == nil {
+						r.fail("", fmt.Sprintf("the background compaction worker removed the table %s (%d entries) although its compaction cycle failed", f.name, len(f.entries)))
+						break
+					}
+				}
+			}
+			if !r.reopen(false, 3600) {
+				aborted = true
+				break loop
+			}
+			r.dump(true)
+			r.sweep(fmt.Sprintf("after autofail (op %d)", i))
 		case "range":
 			pre := r.dump(false)
 			if err := r.e.CompactRange(tok(l[1]), tok(l[2])); err != nil {
@@ -1376,7 +1420,11 @@ func (g *c12gen) faultCycle(id string) {
 		}
 		fmt.Fprintf(w, "flush\n")
 	}
-	fmt.Fprintf(w, "failtrigger\n")
+	if r.Intn(2) == 0 {
+		fmt.Fprintf(w, "autofail\n")
+	} else {
+		fmt.Fprintf(w, "failtrigger\n")
+	}
 	for t := r.Intn(3); t > 0; t-- {
 		fmt.Fprintf(w, "trigger\n")
 	}
